@@ -77,6 +77,17 @@ Definition react (revised : bool) (fs : list fault) : cls :=
   | _ => let v := handling revised (strongest CNone (keep (map validate_class fs))) in cls_max d v
   end.
 
+(* ---- which attributes of the UPDATE stay on the route (BGPUpdate.DecodeFromBytes: an attribute is appended to
+   msg.PathAttributes unless ITS OWN decoding error is of the attribute-discard class; the error of one attribute has
+   no say on the next). attrs = the attribute types of the UPDATE in arrival order. *)
+Definition own_error (fs : list fault) (a : string) : option cls :=
+  if existsb (fun f => match f with FAttrFlags b => String.eqb a b | _ => false end) fs then Some CTaw
+  else if existsb (fun f => match f with FAttrMalformed b => String.eqb a b | _ => false end) fs then Some (table_class a)
+  else None.
+Definition stays (fs : list fault) (a : string) : bool :=
+  match own_error fs a with Some CDiscard => false | _ => true end.
+Definition kept_attrs (fs : list fault) (attrs : list string) : list string := filter (stays fs) attrs.
+
 (* ---- the specification: RFC 7606 (revised) / RFC 4271 class of every fault of the catalogue *)
 Definition rfc_attr_class (attr : string) : cls :=
   if String.eqb attr "BGP_ATTR_TYPE_ATOMIC_AGGREGATE" || String.eqb attr "BGP_ATTR_TYPE_AGGREGATOR" then CDiscard
